@@ -338,7 +338,7 @@ for _k in ('C04', 'C11'):
 # very long paths (length limits / truncation in Router::search): a handful of cheap cases
 for _k in ('C01', 'C02', 'C07'):
     if not any(sc[0] == 'longpath' for sc in PROPS[_k]['scenarios']):
-        PROPS[_k]['scenarios'] = PROPS[_k]['scenarios'] + [('longpath', 2, 48)]
+        PROPS[_k]['scenarios'] = PROPS[_k]['scenarios'] + [('longpath', 2, 16)]
 
 # C17 end to end: the example's own server (start_server -> AppRouter::handle) on a loopback socket
 PROPS['C17']['scenarios'] = PROPS['C17']['scenarios'] + [('ocie2e', 640, 6400)]
